@@ -62,6 +62,14 @@ func run(f *hx.Flags, w *world) int {
 	m := &impl{w: w}
 	r := hx.NewRunner(f, "h-gsort", m, rule)
 	r.KeyOf = keyOf
+	// the text of the generated Less is a prediction about the template's shape; the property's
+	// observables are the compiled Less/sort results
+	r.KindOf = func(d *hx.Disagreement) string {
+		if ws := strings.Fields(d.Request); len(ws) >= 2 && ws[1] == "chain" {
+			return "tie-broken"
+		}
+		return ""
+	}
 	if r.HandleReplay() {
 		return 0
 	}
